@@ -4,14 +4,14 @@
 # other running jobs), confirms the demonstration (exit 0 clean / 1 patched) and runs ./check <PROP>
 # against the patched worktree.  tools/seedrun_repo.sh does the same on /repo itself (apply, run, undo).
 set -u
-S="$(cd "$1" && pwd)"; P="$2"; T="${3:-quick}"
+S="$(cd "$1" && pwd)"; P="$2"; T="${3:-quick}"; shift; shift; [ $# -gt 0 ] && shift
 V="$(cd "$(dirname "$0")/.." && pwd)"
 W="${SEED_WT:-/tmp/wt_seedtest_$$}"
 git -C /repo worktree add --detach "$W" HEAD -q || exit 9
 trap 'git -C /repo worktree remove --force "$W"; rm -rf "/tmp/qvout_$$"' EXIT
 cd "$W"
-PYTHONPATH="$W" /venv/bin/python "$S/demo.py" >/dev/null 2>&1; echo "demo clean exit=$?"
+PYTHONPATH="$W" timeout 900 /venv/bin/python "$S/demo.py" >/dev/null 2>&1; echo "demo clean exit=$?"
 git apply "$S/patch.diff" || { echo "PATCH DOES NOT APPLY"; exit 8; }
-PYTHONPATH="$W" /venv/bin/python "$S/demo.py" >/dev/null 2>&1; echo "demo patched exit=$?"
+PYTHONPATH="$W" timeout 900 /venv/bin/python "$S/demo.py" >/dev/null 2>&1; echo "demo patched exit=$?"
 cd "$V"
-QV_REPO="$W" QV_OUT="/tmp/qvout_$$" ./check "$P" --tier "$T" 2>&1 | grep "^VIOLATION\|^KNOWN\|^$P \[" | cut -c1-300 | sort | uniq -c | sort -rn | head -8
+QV_REPO="$W" QV_OUT="/tmp/qvout_$$" ./check "$P" --tier "$T" "$@" 2>&1 | grep "^VIOLATION\|^KNOWN\|^$P \[" | cut -c1-300 | sort | uniq -c | sort -rn | head -8
